@@ -141,7 +141,8 @@ def urivalue(uri):
          ``url("\"")`` => ``"``
          ``url(\")`` => ``"``
     """
-    uri = uri[uri.find('(') + 1 : -1].strip()
+    # (CSS white space only: a no-break space is part of the URL)
+    uri = uri[uri.find('(') + 1 : -1].strip(' \t\r\n\f')
     if uri and (uri[0] in '\'"') and (uri[0] == uri[-1]):
         return stringvalue(uri)
     else:
